@@ -18,7 +18,7 @@ func extraAgents(s *Sim) []Agent {
 	add("levlp", &LevLPAgent{newBase(s, "levlp")})
 	add("perp", &PerpAgent{newBase(s, "perp")})
 	add("liquidator", &LiquidatorAgent{baseAgent: newBase(s, "liquidator")})
-	add("commit", &CommitAgent{newBase(s, "commit")})
+	add("commit", &CommitAgent{baseAgent: newBase(s, "commit")})
 	add("oraclechaos", &OracleChaosAgent{newBase(s, "oraclechaos")})
 	add("govchaos", &GovChaosAgent{baseAgent: newBase(s, "govchaos")})
 	add("govedge", &GovEdgeAgent{baseAgent: newBase(s, "govedge")})
